@@ -252,6 +252,10 @@ def parse_rvalue(rv):
             if pos > 0 and re.match(r'^[A-Za-z]', kind):
                 return ('cast', parse_operand(head[:pos]), head[pos + 4:], kind)
         return ('use', parse_operand(rv))
+    # a function item coerced to a function pointer: `path::to::f as for<'a> fn(..) -> T (PointerCoercion(ReifyFnPointer(Safe), Implicit))`
+    m = re.match(r"^([A-Za-z_][\w:<>, &']*?) as (.*) \((PointerCoercion\(ReifyFnPointer.*)\)$", rv, re.S)
+    if m and not rv.startswith(('Add(', 'Sub(')):
+        return ('cast', ('const', ('item', m.group(1))), m.group(2), m.group(3))
     if rv.startswith('&raw const '): return ('rawptr', False, parse_place(rv[11:]))
     if rv.startswith('&raw mut '): return ('rawptr', True, parse_place(rv[9:]))
     if rv.startswith('&mut '): return ('ref', True, parse_place(rv[5:]))
